@@ -94,7 +94,12 @@ def diff_cases(chk, cases, model, stage, key_prefix="correspondence"):
             continue
         ke, km = klass(exp), klass(m)
         if ke == km and ke in ("err", "panic") and exp.split(" ")[1:] == m.split(" ")[1:]:
-            soft += 1
+            # same class; compare the coarse variant the model distinguishes (Eof / Io / Other)
+            if ke == "err" and ":" in exp.split(" ")[0] and ":" in m.split(" ")[0]:
+                iv = exp.split(" ")[0].split(":", 1)[1]
+                coarse = "Eof" if iv == "Io:UnexpectedEof" else ("Io" if iv.startswith("Io") else "Other")
+                if coarse != m.split(" ")[0].split(":", 1)[1]:
+                    soft += 1
             continue
         bad += 1
         if bad == 1:
